@@ -384,6 +384,9 @@ func (x *Engine) frameObligations(fr *Frame, fs *FuncSpec, ret *State, env map[s
 		if fin == ini {
 			continue
 		}
+		if fs.ModHeap && !strings.HasPrefix(k, "ghost:") {
+			continue
+		}
 		var goal string
 		switch {
 		case strings.HasPrefix(k, "G:"), strings.HasPrefix(k, "ghost:"):
